@@ -413,6 +413,101 @@ MENU = {
     "i.to_frame.T-free sum": lambda x, m: x[["i"]].sum().to_frame(),
 }
 
+# ----------------------------------------------------------------------------- the missing-value family
+# Every operation whose RESULT DTYPE depends on whether a missing value has to be inserted (int -> float, bool -> object):
+# the metadata of such an operation must be derived from a NON-empty stand-in (meta_nonempty), an empty meta keeps the
+# input dtypes.  Frame-wide on a frame that always holds int, uint, bool, float, object/str and datetime columns, and per
+# column; run on sources with a unique sorted index and partitions of >= 3 rows (shift / diff / rolling need partitions at
+# least as long as their window) with known divisions.
+NAN_COLS = ["i", "u", "b", "f", "s", "t"]
+NUM_COLS = ["i", "u", "b", "f"]
+
+
+def _other_index(m):
+    """A second collection on ANOTHER index (labels 12 and, for short frames, 9 are missing in the source)."""
+    pdf = pd.DataFrame({"i": np.array([1, 2, 3, 4], dtype="int64"), "b": [True, False, True, False], "u": np.array([1, 2, 3, 4], dtype="uint8"),
+                        "w": [1.5, 2.5, 3.5, 4.5]}, index=pd.Index([0, 4, 9, 12], dtype="int64"))
+    return m.from_pandas(pdf, npartitions=2)
+
+
+def _nan_family():
+    fam = {}
+
+    def add(name, fn):
+        fam["nan:" + name] = fn
+
+    for k in (1, -1, 2, 0):
+        add("shift(%d):frame" % k, lambda x, m, k=k: x[NAN_COLS].shift(k))
+        for c in NAN_COLS:
+            add("shift(%d):%s" % (k, c), lambda x, m, k=k, c=c: x[c].shift(k))
+    add("shift(1):all columns", lambda x, m: x.shift(1))
+    add("shift(1):frame[i,b]", lambda x, m: x[["i", "b"]].shift(1))
+    for k in (1, -1, 2):
+        add("diff(%d):frame" % k, lambda x, m, k=k: x[["i", "u", "b", "f", "t", "d"]].diff(k))
+        for c in ("i", "u", "b", "f", "t"):
+            add("diff(%d):%s" % (k, c), lambda x, m, k=k, c=c: x[c].diff(k))
+    for agg in ("sum", "mean", "max", "min", "count", "std"):
+        add("rolling.%s:frame" % agg, lambda x, m, agg=agg: getattr(x[NUM_COLS].rolling(2), agg)())
+    for c in NUM_COLS:
+        add("rolling.sum:%s" % c, lambda x, m, c=c: x[c].rolling(2).sum())
+        add("rolling.max:%s" % c, lambda x, m, c=c: x[c].rolling(2).max())
+    add("rolling(3,min_periods=1).sum:frame", lambda x, m: x[NUM_COLS].rolling(3, min_periods=1).sum())
+    for op in ("cumsum", "cumprod", "cummax", "cummin"):
+        add("%s:frame" % op, lambda x, m, op=op: getattr(x[NUM_COLS], op)())
+        for c in NUM_COLS:
+            add("%s:%s" % (op, c), lambda x, m, op=op, c=c: getattr(x[c], op)())
+    add("cummax:frame[i,t]", lambda x, m: x[["i", "t"]].cummax())
+    add("cummin:t", lambda x, m: x.t.cummin())
+    for op in ("ffill", "bfill"):
+        add("%s:frame" % op, lambda x, m, op=op: getattr(x[NAN_COLS], op)())
+        add("%s:f" % op, lambda x, m, op=op: getattr(x.f, op)())
+    # reindex-like: alignment with a collection on another index inserts missing values into BOTH operands
+    add("align(other index):frame", lambda x, m: x[["i", "b", "u"]].align(_other_index(m)[["i", "b", "u"]])[0])
+    add("align(other index):i", lambda x, m: x.i.align(_other_index(m).i)[0])
+    add("align(other index):b", lambda x, m: x.b.align(_other_index(m).b)[0])
+    add("binop(other index):frame", lambda x, m: x[["i", "u"]] + _other_index(m)[["i", "u"]])
+    add("binop(other index):i", lambda x, m: x.i + _other_index(m).i)
+    add("binop(other index):b", lambda x, m: x.b & _other_index(m).b)
+    add("add(fill_value, other index):i", lambda x, m: x.i.add(_other_index(m).i, fill_value=0))
+    add("combine_first(other index):frame", lambda x, m: x[["i", "b", "u"]].combine_first(_other_index(m)[["i", "b", "u"]]))
+    add("combine_first(other index):i", lambda x, m: x.i.combine_first(_other_index(m).i))
+    add("concat(axis=1, other index)", lambda x, m: m.concat([x[["i", "b", "u"]], _other_index(m)[["w"]]], axis=1))
+    add("join(outer, other index)", lambda x, m: x[["i", "b", "u"]].join(_other_index(m)[["w"]], how="outer"))
+    add("join(left, other index)", lambda x, m: x[["i", "b"]].join(_other_index(m)[["w", "u"]].rename(columns={"u": "u2"}), how="left"))
+    add("assign(other index)", lambda x, m: x[["i", "b"]].assign(z=_other_index(m).i, y=_other_index(m).b))
+    add("where(cond on other index):frame", lambda x, m: x[["i", "b", "u"]].where(_other_index(m).w > 2))
+    add("where(cond on other index):i", lambda x, m: x.i.where(_other_index(m).w > 2))
+    add("mask(cond on other index):u", lambda x, m: x.u.mask(_other_index(m).w > 2))
+    # per group
+    add("groupby.shift:frame", lambda x, m: x.groupby("k")[["i", "b", "u", "s"]].shift(1))
+    add("groupby.shift:i", lambda x, m: x.groupby("k").i.shift(1))
+    add("groupby.first:frame", lambda x, m: x.groupby("k")[["i", "b", "u", "s", "t"]].first())
+    add("groupby.last:frame", lambda x, m: x.groupby("k")[["i", "b", "u", "s", "t"]].last())
+    add("groupby.cumsum:frame", lambda x, m: x.groupby("k")[["i", "b", "u", "f"]].cumsum())
+    add("groupby.ffill:frame", lambda x, m: x.groupby("k")[["i", "f", "b"]].ffill())
+    return fam
+
+
+NAN_MENU = _nan_family()
+MENU.update(NAN_MENU)
+
+
+def nan_site(opname):
+    """Call site of a missing-value-family entry: the method and whether it runs frame-wide or on which column - not the period."""
+    body = opname[4:]
+    head, _, target = body.partition(":")
+    target = "frame" if (not target or target.startswith("frame") or target == "all columns") else target
+    if "other index" in head and not head.startswith(("combine_first", "concat", "join")):
+        # align / binary operators / assign / where with an operand on ANOTHER index: one code path (the metadata of the
+        # aligned expression is evaluated on the operands' empty metas, where alignment inserts nothing)
+        return "nan:alignment(other index)"
+    base = head.split("(")[0]
+    if base in ("cumsum", "cumprod", "cummax", "cummin"):
+        return "nan:cumulative:%s" % target
+    method = base if base in ("shift", "diff") else head
+    return "nan:%s:%s" % (method, target)
+
+
 # documented limitations (message fragments): a program that hits one is skipped and counted, never judged
 LIMITATIONS = ["Can only rolling dataframes with known divisions", "All NaN partition encountered", "Partition size is less than",
                "Not all divisions are known",
@@ -436,6 +531,8 @@ for _site, _names in {
 
 
 def site_of(opname):
+    if opname.startswith("nan:"):
+        return nan_site(opname)
     return SITE.get(opname, opname)
 
 
@@ -458,6 +555,8 @@ def rich_source(spec):
     ddm = dd()
     rng = random.Random(spec["seed"])
     pdf = rich_frame(rng, spec["n"])
+    if spec.get("uniq"):
+        pdf.index = pd.Index(range(spec["n"]), dtype="int64")      # unique sorted labels: partitions of exactly the given sizes
     if spec["mode"] == "from_pandas":
         return ddm.from_pandas(pdf, npartitions=max(1, len(spec["layout"])), sort=bool(pdf.index.is_monotonic_increasing))
     divs = None
@@ -570,7 +669,7 @@ def design_check(ctx):
     ctx.extra["design_observations_enumerated"] = len(cases)
 
 
-def gen_programs(ctx, n_layouts, n_two, n_pipes):
+def gen_programs(ctx, n_layouts, n_two, n_pipes, n_nan=2):
     from .C44 import weak_comp
     rng = ctx.rng
     progs = []
@@ -586,7 +685,18 @@ def gen_programs(ctx, n_layouts, n_two, n_pipes):
             mode = "unknown"
         srcs.append({"seed": seed, "n": n, "layout": layout, "mode": mode})
     for name in MENU:
+        if name in NAN_MENU:
+            continue
         for s in srcs:
+            progs.append({"pid": "m%d" % len(progs), "src": s, "first": "", "op": name})
+    # the missing-value family on sources whose partitions are long enough for every window (>= 3 rows, known divisions)
+    nan_srcs = []
+    for j in range(n_nan):
+        n = rng.randint(8, 10)
+        layout = [[n], [4, n - 4], [3, 3, n - 6], [n - 3, 3]][j % 4]
+        nan_srcs.append({"seed": rng.randint(0, 10 ** 6), "n": n, "layout": layout, "mode": "known" if j % 2 else "from_pandas", "uniq": True})
+    for name in NAN_MENU:
+        for s in nan_srcs:
             progs.append({"pid": "m%d" % len(progs), "src": s, "first": "", "op": name})
     names, firsts = sorted(MENU), sorted(FIRST)
     for _ in range(n_two):
@@ -641,7 +751,7 @@ def run(ctx):
     import dask
     dask.config.set({"temporary-directory": ctx.scratch})
     design_check(ctx)
-    progs, pipes = gen_programs(ctx, n_layouts=ctx.pick(3, 9), n_two=ctx.pick(160, 3000), n_pipes=ctx.pick(90, 1500))
+    progs, pipes = gen_programs(ctx, n_layouts=ctx.pick(3, 9), n_two=ctx.pick(160, 3000), n_pipes=ctx.pick(90, 1500), n_nan=ctx.pick(2, 8))
     viol, recs, skips = check_programs(ctx, progs + pipes, "observations: _meta vs computed object vs partitions")
     for s in skips:
         ctx.skip(s)
@@ -655,7 +765,7 @@ def run(ctx):
     for r in recs[:2]:
         ctx.sample({"op": r["opname"], "meta": r["obs"]["meta"], "nparts": r["obs"]["nparts"]})
     ctx.exhaustive = False
-    ctx.extra["program_counts"] = {"menu_entries": len(MENU), "menu_programs": len(progs), "c36_pipelines": len(pipes), "records": len(recs)}
+    ctx.extra["program_counts"] = {"menu_entries": len(MENU), "missing_value_family_entries": len(NAN_MENU), "menu_programs": len(progs), "c36_pipelines": len(pipes), "records": len(recs)}
     ctx.rule = ("cases = collections produced by recorded programs (menu entry x seeded source / partitioning, two-step programs, every "
                 "intermediate of seeded C36 pipelines); each is one observation (meta, computed, partitions); distinct by (program, step)")
     ctx.assumptions = ["TLC evaluates the invariant correctly", "the description projection maps dtypes to classes as documented",
@@ -735,6 +845,12 @@ def selftest(ctx):
              "frame.sum(num)", "gb.sum", "gb.i.sum", "merge(on k)", "concat(rows)", "set_index(k)", "sort_values(i)", "str.upper", "dt.year", "cat.codes",
              "i.cumsum", "drop(cols)", "index", "loc[1:3,cols]"]
     progs = [{"pid": "m%d" % i, "src": src, "first": "", "op": name} for i, (src, name) in enumerate((a, b) for a in srcs for b in names)]
+    # the missing-value family on a source with long partitions (shift / diff need partitions as long as their window)
+    nan_src = {"seed": 7, "n": 10, "layout": [3, 3, 4], "mode": "known", "uniq": True}
+    nan_names = ["nan:shift(1):frame", "nan:shift(-1):frame", "nan:shift(0):frame", "nan:shift(1):i", "nan:shift(1):b", "nan:shift(1):f", "nan:shift(1):s",
+                 "nan:shift(1):all columns", "nan:diff(1):frame", "nan:diff(1):i", "nan:diff(-1):b", "nan:rolling.sum:frame", "nan:ffill:frame",
+                 "nan:groupby.shift:frame"]
+    progs += [{"pid": "n%d" % i, "src": nan_src, "first": "", "op": name} for i, name in enumerate(nan_names)]
 
     def meta_prop(fn):
         cp = functools.cached_property(fn)
@@ -756,6 +872,8 @@ def selftest(ctx):
          meta_prop(lambda self: self.frame._meta), uses("rename_axis")),
         ("ToFrame._meta: the name= argument is ignored in the metadata", [ex.ToFrame], "_meta",
          meta_prop(lambda self: self.frame._meta.to_frame()), uses("to_frame(name)")),
+        ("Shift._meta: evaluated on the EMPTY meta instead of meta_nonempty (no missing value to insert: int / bool dtypes kept)", [ex.Shift], "_meta",
+         meta_prop(lambda self: ex.make_meta(self.frame._meta.shift(**self.kwargs))), uses("nan:shift")),
     ]
     tagged = [("baseline", p) for p in progs]
     for name, targets, attr, mut, select in mutants:
